@@ -141,7 +141,7 @@ _ADD = {
  "C11": " Added later: conversation ids from the whole 32-bit space (0 and 0xffffffff favoured, reconnect to id 0), any clock offset, an immediate oracle (once the listener has been handed the first data packet of a peer's conversation its table holds that conversation for that address), and E7 (datagrams from a third real socket).",
  "C13": " Added later: in a third of the session cases X is a session handed out by a listener, which may be closed while the session goes on; literal regression cases for the two repaired wake-up defects.",
  "C14": " Added later: transport faults during the calls and during Close, a third of the programs over real loopback UDP sockets, Close while other goroutines call methods of the same session, all listener methods, programs that start just before the entropy source re-seeds.",
- "C15": " Added later: E7 (real sockets owned by the library: descriptors and goroutines back to the baseline after Close in four orders, also in mid-transfer and under a storm of first packets from new peers), OOB calls on closed sessions under the pool sanitizer, a literal regression case for sessions nobody accepted.",
+ "C15": " Added later: E7 (real sockets owned by the library: descriptors and goroutines back to the baseline after Close in four orders, also in mid-transfer and under a storm of first packets from new peers), OOB calls on closed sessions under the pool sanitizer, a literal regression case for sessions nobody accepted, and a real-time test that feeds a listener first datagrams from 1 to 168 peers (around its accept backlog of 128) through a hand-fed transport, accepts a few, closes everything and requires Close to return, the reader to end and every goroutine to be gone.",
  "C16": " Added later: TestC16SessionLazyDecoder - FEC at the sender only, through real sessions: the receiving session must keep its lazily created decoder, adopt the ratio within the bound and recover losses afterwards.",
  "C17": " Added later: tasks that submit tasks; 'never' deadlines a century away, past the year 2262 and at the largest time value.",
  "C18": " Added later: clock offsets at the wrap points in half of the clean-path runs; NoDelay called again in mid-connection (the floor in force is that of the last call from the next RTT sample on).",
